@@ -4,6 +4,7 @@
 # module with /repo), so edits to /repo are always what is checked.
 set -u
 cd "$(dirname "$0")"
+export VERIF_ROOT="$PWD"
 export GOFLAGS=-mod=mod GOPROXY=off
 unset GOSUMDB GOTOOLCHAIN 2>/dev/null || true
 export GOCACHE="${GOCACHE:-$HOME/.cache/go-build}"
@@ -35,7 +36,7 @@ build_instr() {
     exit 2
   fi
   # self-test: the repository's own tests must pass on the instrumented tree
-  if ! (cd /repo && go test -vet=off -count=1 -overlay /verif/.work/overlay.json ./... > /verif/.work/instr-selftest.log 2>&1); then
+  if ! (cd /repo && go test -vet=off -count=1 -overlay "$VERIF_ROOT/.work/overlay.json" ./... > "$VERIF_ROOT/.work/instr-selftest.log" 2>&1); then
     echo "BUILD-ERROR: the repository's tests do not pass on the instrumented tree (or on the tree itself)" >&2
     grep -v '^ok' .work/instr-selftest.log | head -30 >&2
     exit 2
